@@ -157,6 +157,8 @@ pub struct SessionState {
     pub client_hello_seen: bool,
     pub committed: bool,
     pub unframed_garbage: bool,
+    /// index of the connection attempt this session belongs to
+    pub attempt: Option<usize>,
 }
 
 #[derive(Default)]
@@ -172,8 +174,35 @@ pub struct Junos {
     /// refuse the next n connection attempts
     pub refuse_connections: usize,
     pub connection_attempts: Vec<u64>,
+    /// daemon simulations: what happens at the k-th connection attempt
+    pub script: Vec<AttemptPlan>,
+    /// virtual time (ns) of the last transport event of each attempt
+    pub attempt_last_ns: Vec<u64>,
+    /// when the job of each attempt ended, and whether it failed: the instant of the connection
+    /// refusal, of the delivery of the first negative reply, of the EOF, or of the delivery of
+    /// the positive close-session reply (the agent acts on each of these without further delay)
+    pub attempt_end: Vec<Option<(u64, bool)>>,
     /// ns at which each refused/failed attempt ended
     pub epoch: Option<Instant>,
+}
+
+#[derive(Clone, Copy, Debug, PartialEq, Eq)]
+pub enum AttemptKind {
+    Succeed,
+    /// the connection attempt fails (after `connect_ms` of virtual time)
+    FailConnect,
+    /// the session is established, then the request at this position is answered with an rpc-error
+    FailAtRequest(usize),
+    /// the session is established, then the server closes the connection instead of answering this request
+    CloseAtRequest(usize),
+}
+
+#[derive(Clone, Debug)]
+pub struct AttemptPlan {
+    pub kind: AttemptKind,
+    pub connect_ms: u64,
+    /// virtual delay (ms) of every send and every reply of this attempt
+    pub step_ms: u64,
 }
 
 pub fn decorate(comment: &str, style: usize) -> String {
@@ -441,6 +470,13 @@ pub fn apply_load(db: &mut EphDb, config: &Elem) -> Result<Vec<String>, String> 
 
 impl Junos {
     fn fault_for(&self, sid: usize, req: usize) -> Option<FaultKind> {
+        if let Some(plan) = self.sessions[sid].attempt.and_then(|a| self.script.get(a)) {
+            match plan.kind {
+                AttemptKind::FailAtRequest(k) if k == req => return Some(FaultKind::RpcError),
+                AttemptKind::CloseAtRequest(k) if k == req => return Some(FaultKind::CloseBeforeReply),
+                _ => {}
+            }
+        }
         self.faults.iter().find(|(s, r, _)| *s == sid && *r == req).map(|f| f.2)
     }
 
@@ -742,11 +778,26 @@ impl Transport for ATransport {
     }
 }
 
-fn pick_delay(sh: &Sh) -> Duration {
-    let mut g = sh.lock().unwrap();
+fn step_delay(g: &mut Shared, sid: usize) -> Duration {
+    if let Some(plan) = g.junos.sessions[sid].attempt.and_then(|a| g.junos.script.get(a)) {
+        return Duration::from_millis(plan.step_ms);
+    }
     let n = g.delays_ms.len();
     let i = g.ctx.pick(n);
     Duration::from_millis(g.delays_ms[i])
+}
+
+fn pick_delay(sh: &Sh, sid: usize) -> Duration {
+    let mut g = sh.lock().unwrap();
+    step_delay(&mut g, sid)
+}
+
+fn touch(g: &mut Shared, sid: usize, t: u64) {
+    if let Some(a) = g.junos.sessions[sid].attempt {
+        if let Some(slot) = g.junos.attempt_last_ns.get_mut(a) {
+            *slot = t;
+        }
+    }
 }
 
 fn now_ns(g: &mut Shared) -> u64 {
@@ -758,7 +809,7 @@ fn now_ns(g: &mut Shared) -> u64 {
 impl SendHandle for ATx {
     async fn send(&mut self, data: Bytes) -> Result<(), Error> {
         beat();
-        let d = pick_delay(&self.sh);
+        let d = pick_delay(&self.sh, self.sid);
         if !d.is_zero() {
             tokio::time::sleep(d).await;
         }
@@ -770,10 +821,9 @@ impl SendHandle for ATx {
         let replies = g.junos.on_bytes(self.sid, &data, t);
         let head: String = String::from_utf8_lossy(&data[..data.len().min(100)]).replace('\n', " ");
         crate::ev!(g.ctx, "[{:>9.3}ms] s{} client -> {}", t as f64 / 1e6, self.sid, head);
+        touch(&mut g, self.sid, t);
         for (bytes, req) in replies {
-            let n = g.delays_ms.len();
-            let i = g.ctx.pick(n);
-            let ready_at = Instant::now() + Duration::from_millis(g.delays_ms[i]);
+            let ready_at = Instant::now() + step_delay(&mut g, self.sid);
             g.junos.sessions[self.sid].outbox.push_back(OutMsg { bytes, ready_at, req });
         }
         drop(g);
@@ -794,13 +844,32 @@ impl RecvHandle for ARx {
                 let mut g = self.sh.lock().unwrap();
                 let now = Instant::now();
                 let t = now_ns(&mut g);
+                let deliverable = g.junos.sessions[self.sid].outbox.front().is_some_and(|m| m.ready_at <= now);
+                let closing = g.junos.sessions[self.sid].outbox.is_empty() && g.junos.sessions[self.sid].close_when_drained;
+                if deliverable || closing {
+                    touch(&mut g, self.sid, t);
+                }
                 let s = &mut g.junos.sessions[self.sid];
                 match s.outbox.front() {
                     Some(m) if m.ready_at <= now => {
                         let m = s.outbox.pop_front().unwrap();
+                        let mut ended: Option<bool> = None;
                         if let Some(k) = m.req {
                             if let Some(r) = s.log.get_mut(k) {
                                 r.delivered = true;
+                                let positive = matches!(r.reply, ReplyKind::Positive | ReplyKind::PositiveWithWarning);
+                                if !positive {
+                                    ended = Some(true);
+                                } else if r.op == "close-session" {
+                                    ended = Some(false);
+                                }
+                            }
+                        }
+                        if let (Some(failed), Some(a)) = (ended, s.attempt) {
+                            if let Some(slot) = g.junos.attempt_end.get_mut(a) {
+                                if slot.is_none() {
+                                    *slot = Some((t, failed));
+                                }
                             }
                         }
                         let head: String = String::from_utf8_lossy(&m.bytes[..m.bytes.len().min(100)]).replace('\n', " ");
@@ -811,6 +880,13 @@ impl RecvHandle for ARx {
                     None => {
                         if s.close_when_drained {
                             s.closed_by_server = true;
+                            if let Some(a) = s.attempt {
+                                if let Some(slot) = g.junos.attempt_end.get_mut(a) {
+                                    if slot.is_none() {
+                                        *slot = Some((t, true));
+                                    }
+                                }
+                            }
                             crate::ev!(g.ctx, "[{:>9.3}ms] s{} server closed the connection", t as f64 / 1e6, self.sid);
                             return Err(Error::Transport(std::io::Error::new(std::io::ErrorKind::UnexpectedEof, "simulated: connection closed by peer")));
                         }
@@ -845,23 +921,53 @@ pub fn connector(sh: Sh) -> agent::verif::Connector<ATransport> {
     Arc::new(move || {
         let sh = sh.clone();
         Box::pin(async move {
-            let (sid, notify) = {
+            // phase 1 (no await while the lock is held): register the attempt, decide what happens
+            enum Step {
+                Refuse,
+                RefuseAfter(usize, u64),
+                Session(usize),
+            }
+            let step = {
                 let mut g = sh.lock().unwrap();
                 let t = now_ns(&mut g);
                 g.junos.connection_attempts.push(t);
                 let n_attempts = g.junos.connection_attempts.len();
                 crate::ev!(g.ctx, "[{:>9.3}ms] connection attempt #{}", t as f64 / 1e6, n_attempts);
+                let attempt = n_attempts - 1;
+                g.junos.attempt_last_ns.push(t);
+                g.junos.attempt_end.push(None);
+                let plan = g.junos.script.get(attempt).cloned();
                 if g.junos.refuse_connections > 0 {
                     g.junos.refuse_connections -= 1;
+                    g.junos.attempt_end[attempt] = Some((t, true));
+                    Step::Refuse
+                } else if let Some(AttemptPlan { kind: AttemptKind::FailConnect, connect_ms, .. }) = plan {
+                    Step::RefuseAfter(attempt, connect_ms)
+                } else {
+                    let sid = g.junos.sessions.len();
+                    let mut s = SessionState::default();
+                    s.attempt = Some(attempt);
+                    let hello = crate::ssim::hello_with(&SERVER_CAPS, &format!("{}", 100 + sid));
+                    s.outbox.push_back(OutMsg { bytes: hello, ready_at: Instant::now(), req: None });
+                    g.junos.sessions.push(s);
+                    Step::Session(sid)
+                }
+            };
+            let sid = match step {
+                Step::Refuse => return Err(anyhow::anyhow!("simulated: connection refused")),
+                Step::RefuseAfter(attempt, ms) => {
+                    if ms > 0 {
+                        tokio::time::sleep(Duration::from_millis(ms)).await;
+                    }
+                    let mut g = sh.lock().unwrap();
+                    let t = now_ns(&mut g);
+                    g.junos.attempt_last_ns[attempt] = t;
+                    g.junos.attempt_end[attempt] = Some((t, true));
                     return Err(anyhow::anyhow!("simulated: connection refused"));
                 }
-                let sid = g.junos.sessions.len();
-                let mut s = SessionState::default();
-                let hello = crate::ssim::hello_with(&SERVER_CAPS, &format!("{}", 100 + sid));
-                s.outbox.push_back(OutMsg { bytes: hello, ready_at: Instant::now(), req: None });
-                g.junos.sessions.push(s);
-                (sid, Arc::new(Notify::new()))
+                Step::Session(sid) => sid,
             };
+            let notify = Arc::new(Notify::new());
             let t = ATransport { sh, sid, notify };
             Ok(Session::verif_new(t).await?)
         })
